@@ -296,3 +296,6 @@ def run_check(tier, seed):
         seen[k] = 1; uniq.append(f)
     for f in uniq: f['count'] = seen[json.dumps(f.get('sig'), sort_keys=True)]
     return finish(ev, PROP, uniq, broken)
+
+def replay(path):
+    return replay_generic(PROP, path)
